@@ -87,7 +87,9 @@ def z3_identity_zero(p):
 def check_zero(facts, p):
     """returns (ok, residue)"""
     r = facts.elim(p)
-    return r.is_zero(), r
+    if r.is_zero():
+        return True, r
+    return facts.is_zero(p), r
 
 def random_point(facts, polys, seed):
     """a concrete assignment (mod q) of the free variables under which some clause poly is non-zero"""
